@@ -741,7 +741,6 @@ func (c *Check) meanDivisorNeverSkipped() {
 	}
 }
 
-
 // diffBaseProtocol: the label that marks base samples is written, tested and removed with
 // one key and value; it is removed only by the report's graph construction (after the total
 // was computed), and the proto output keeps it so that a saved diff reopens as a diff.
